@@ -91,7 +91,6 @@ theorem new_update_inv {cfg : Cfg} (hleg : cfg.legacy = false)
       Map.get s.classes c = none ∧ ∃ d, Map.get b.classes c = some d ∧ d.sierra = true)
     (hfresh : ∀ c x, Map.get b.diff.declV1 c = some x → Map.get casm c = none)
     (depNotSys : ∀ a c, Map.get b.diff.deployed a = some c → isSys a = false)
-    (depRep : ∀ a c, Map.get b.diff.deployed a = some c → Map.get b.diff.replaced a = none)
     (noSysEmptied : ∀ a, isSys a = true → (Map.get s.contracts a).isSome = true →
       storageEmpty (writeStorage s.storage b.diff.storage) a = false)
     (hsc : storeCasm b.number b casm = .ok casm')
@@ -123,8 +122,8 @@ theorem new_update_inv {cfg : Cfg} (hleg : cfg.legacy = false)
   have eTr : s'.classTrie = updateClassTrie s.classTrie b := by rw [hs']; exact u3
   have eHS : s'.hStorage = Map.setAll s.hStorage (b.diff.storage.map (fun e => ((e.1, b.number), e.2))) := by rw [hs']
   have eHN : s'.hNonce = Map.setAll s.hNonce (b.diff.nonces.map (fun e => ((e.1, b.number), e.2))) := by rw [hs']
-  have eHC : s'.hClass = Map.setAll (Map.setAll s.hClass (b.diff.replaced.map (fun e => ((e.1, b.number), e.2))))
-      (b.diff.deployed.map (fun e => ((e.1, b.number), e.2))) := by rw [hs']
+  have eHC : s'.hClass = Map.setAll (Map.setAll s.hClass (b.diff.deployed.map (fun e => ((e.1, b.number), e.2))))
+      (b.diff.replaced.map (fun e => ((e.1, b.number), e.2))) := by rw [hs']
   have gC : ∀ a, Map.get s'.contracts a =
       if isSys a = true ∧ touched b.diff a = true ∧ storageEmpty (writeStorage s.storage b.diff.storage) a = true then none
       else Map.get cs3 a := by
@@ -181,9 +180,9 @@ theorem new_update_inv {cfg : Cfg} (hleg : cfg.legacy = false)
     rw [eHN, get_setAll_at _ _ dNon, inv.aboveN q b.number (Nat.le_refl _)]
     cases Map.get b.diff.nonces q <;> rfl
   have hCat : ∀ q, Map.get s'.hClass (q, b.number) =
-      match Map.get b.diff.deployed q with | some c => some c | none => Map.get b.diff.replaced q := by
+      match Map.get b.diff.replaced q with | some c => some c | none => Map.get b.diff.deployed q := by
     intro q
-    rw [eHC, get_setAll_at _ _ dDep, get_setAll_at _ _ dRep, inv.aboveC q b.number (Nat.le_refl _)]
+    rw [eHC, get_setAll_at _ _ dRep, get_setAll_at _ _ dDep, inv.aboveC q b.number (Nat.le_refl _)]
     cases Map.get b.diff.deployed q <;> cases Map.get b.diff.replaced q <;> rfl
   refine ⟨{ sC := by rw [eC]; exact u7, sSt := by rw [eS]; exact sSt', sCl := by rw [eCl]; exact k1,
             sTr := by rw [eTr]; exact k2,
@@ -263,7 +262,7 @@ theorem new_update_inv {cfg : Cfg} (hleg : cfg.legacy = false)
       cases hdep : Map.get b.diff.deployed a with
       | some c =>
         have hs0 := f0 a c hdep
-        simp [hs0, depNotSys a c hdep, depRep a c hdep]
+        cases Map.get b.diff.replaced a <;> simp [hs0, depNotSys a c hdep]
       | none =>
         cases hs : Map.get s.contracts a with
         | some ct =>
@@ -276,25 +275,25 @@ theorem new_update_inv {cfg : Cfg} (hleg : cfg.legacy = false)
   · -- histC
     intro a m hm
     rw [valueAtNew_after s.hClass s'.hClass
-      (fun q => match Map.get b.diff.deployed q with | some c => some c | none => Map.get b.diff.replaced q)
+      (fun q => match Map.get b.diff.replaced q with | some c => some c | none => Map.get b.diff.deployed q)
       b.number a m (by omega) inv.aboveC hCother hCat]
     unfold classOf
-    cases hdep : Map.get b.diff.deployed a with
-    | some c =>
+    cases hr : Map.get b.diff.replaced a with
+    | some c' =>
+      obtain ⟨v, hv, _⟩ := f1 a c' hr
       have hcs2 : (Map.get cs2 a).isSome = true := by
-        rw [g2 a, g1 a, g0 a, hdep]
-        cases Map.get b.diff.nonces a <;> cases Map.get b.diff.replaced a <;> rfl
-      rw [notPurged a hcs2, g2 a, g1 a, g0 a, hdep, depRep a c hdep]
+        rw [g2 a, g1 a, hr, hv]
+        cases Map.get b.diff.nonces a <;> rfl
+      rw [notPurged a hcs2, g2 a, g1 a, hr, hv]
       cases Map.get b.diff.nonces a <;> rfl
     | none =>
       simp only []
-      cases hr : Map.get b.diff.replaced a with
-      | some c' =>
-        obtain ⟨v, hv, _⟩ := f1 a c' hr
+      cases hdep : Map.get b.diff.deployed a with
+      | some c =>
         have hcs2 : (Map.get cs2 a).isSome = true := by
-          rw [g2 a, g1 a, hr, hv]
+          rw [g2 a, g1 a, hr, g0 a, hdep]
           cases Map.get b.diff.nonces a <;> rfl
-        rw [notPurged a hcs2, g2 a, g1 a, hr, hv]
+        rw [notPurged a hcs2, g2 a, g1 a, hr, g0 a, hdep]
         cases Map.get b.diff.nonces a <;> rfl
       | none =>
         simp only []
